@@ -97,9 +97,21 @@ def main():
                 # inverted, one-sided above the range (the refusal must come before anything is indexed or sampled with them)
                 for w in ((5.0, 6.0), (9.0, 10.0), (1.0e3, 1.0e4), (3.0, 1.0), (4.5, None), (None, -1.0)):
                     lines.append(genmon.dbd_line(table, iso, level, mode, w))
+    # the configurations with the largest kinematic limits are in every run: they index the keV-binned tables furthest
+    # (the capacity invariant of harness/gen_monitor.cc is evaluated on them, and modes with a sampled second lepton write spthe2 per event)
+    ranked = sorted(((genmon.e0_of(table, i, 0, 1), i) for i in table if genmon.rule_accepts(table, i, 0, 1)), reverse=True)
+    for _, iso in ranked[:6]:
+        for mode in (1, 5, 15):
+            if genmon.rule_accepts(table, iso, 0, mode):
+                ln = genmon.dbd_line(table, iso, 0, mode)
+                if ln not in lines:
+                    lines.append(ln)
     exe, recs, fails = genmon.run_specs("asan", lines, chk.seed, 150 if quick else 3000, 3 if quick else 12, True, extra_env=env, deep_events=10000 if quick else 1000000)
     for shard, rc, err in fails:
         report(chk, "gen_monitor", rc, err, "shard %d" % shard)
+    for r in recs:
+        for m in r.get("memory", []):
+            chk.violation(m["key"], "%s [%s]" % (m["detail"], r.get("config")), {"config": r.get("config"), "detail": m["detail"]})
     n1 = sum(r.get("events", 0) for r in recs)
     events += n1
     distinct += sum(r.get("distinct_signatures", 0) for r in recs)
@@ -135,7 +147,7 @@ def main():
 
     # ---- (3) optional drivers that exist once their checks are built: MDL operation (C10), gA sampler (C14)
     import importlib
-    for name in ("c10", "c14"):
+    for name in ("c05", "c10", "c14"):
         try:
             m = importlib.import_module("checks." + name)
         except ImportError:
